@@ -63,3 +63,25 @@ def runMain (compiled : Except Stage (List MNode)) (b : Backend) (key : Nat → 
     (0, (dir.filter (fun e => !files.contains e.1)) ++ files.map (fun f => (f, gen f)))
 
 end Mink
+
+namespace Mink
+
+/-! ### the write loop with an operating system that can refuse to open a file
+    (main.rs: `OpenOptions::new()…open(path).unwrap()` per file, in the order of the file list) -/
+
+/-- writes the files in order; the first one that cannot be opened ends the run with exit
+    status 101 (the `unwrap` panics), the files before it stay written -/
+def writeLoop (canOpen : Nat → Bool) (gen : Nat → Nat) : List Nat → OutDir → Nat × OutDir
+  | [], dir => (0, dir)
+  | f :: fs, dir =>
+    if canOpen f then writeLoop canOpen gen fs ((dir.filter (fun e => e.1 != f)) ++ [(f, gen f)])
+    else (101, dir)
+
+/-- `main` with fallible opens: all passes and the whole generation come first -/
+def runMainIO (compiled : Except Stage (List MNode)) (b : Backend) (key : Nat → Nat) (base named : Nat)
+    (gen : Nat → Nat) (canOpen : Nat → Bool) (dir : OutDir) : Nat × OutDir :=
+  match compiled with
+  | .error _ => (101, dir)
+  | .ok mir => writeLoop canOpen gen (writtenFiles b key base named mir) dir
+
+end Mink
